@@ -1043,6 +1043,20 @@ func findAllIndex(pat, name string, n int) [][]int {
 	return rx.FindAllStringIndex(name, n)
 }
 
+// findSuffixIndex returns the location of the longest match of the pattern
+// that ends at the end of name, if any.
+func findSuffixIndex(pat, name string) [][]int {
+	expr, err := pattern.Regexp(pat, 0)
+	if err != nil {
+		return nil
+	}
+	rx := regexp.MustCompile("(?:" + expr + ")$")
+	if loc := rx.FindStringIndex(name); loc != nil {
+		return [][]int{loc}
+	}
+	return nil
+}
+
 var (
 	rxGlobStar        = regexp.MustCompile(`^[^/.][^/]*$`)
 	rxGlobStarDotGlob = regexp.MustCompile(`^[^/]*$`)
